@@ -71,4 +71,3 @@ func smoke() int {
 	fmt.Println(r.Stop())
 	return 0
 }
-
